@@ -721,7 +721,8 @@ def run(ctx):
     # support: inside the basin of convergence the fitter converges (stop code 0) at the great majority
     # of well-sampled radii (observed: 95 %); a fitter that does not converge would make the recovery
     # clause vacuous.  Nearest-neighbour fits are left out (pixel noise: most end with code 2).
-    ctx.stat('real', 'converged-of-well-sampled-radii(non-NN)', f'{conv[0]}/{conv[1]}')
+    ctx.stat('real', 'well-sampled-radii(non-NN)', conv[1])
+    ctx.stat('real', 'converged-at-well-sampled-radii(non-NN)', conv[0])
     ctx.support('convergence_rate', conv[1])
     if conv[1] >= 40 and conv[0] < 0.6 * conv[1]:
         ctx.violation('Ellipse.fit_image:convergence-rate',
